@@ -129,8 +129,13 @@ func (f *Fosite) authorizeRequestParametersFromOpenIDConnectRequest(ctx context.
 		// Do not re-process already enhanced errors
 		var e *jwt.ValidationError
 		if errors.As(err, &e) {
-			if e.Inner != nil {
+			var rfcErr *RFC6749Error
+			if e.Inner != nil && errors.As(e.Inner, &rfcErr) {
 				return e.Inner
+			}
+			if e.Has(jwt.ValidationErrorExpired) || e.Has(jwt.ValidationErrorIssuedAt) || e.Has(jwt.ValidationErrorNotValidYet) {
+				// the parser reports these as plain errors
+				return errorsx.WithStack(ErrInvalidRequestObject.WithHint("Unable to verify the request object because its claims could not be validated, check if the expiry time is set correctly.").WithWrap(err).WithDebug(err.Error()))
 			}
 			return errorsx.WithStack(ErrInvalidRequestObject.WithHint("Unable to verify the request object's signature.").WithWrap(err).WithDebug(err.Error()))
 		}
